@@ -35,7 +35,7 @@ CONSTANTS
     Guard1,      \* tool: a file named like the full tile must exist (cleanDir, names[full])
     Guard4,      \* tool: that file is a non-empty regular file (overrideImmutable)
     EdgeSlack,   \* tool: 0 skips f.n >= q; 1 skips only f.n > q
-    ExpShift,    \* tool: 0 divides by TW^(L+1); -1 by TW^L
+    ExpLess,     \* tool: 0 divides by TW^(L+1); 1 by TW^L
     SizeFrom     \* tool: "pub" (verified published checkpoint) | "unverified" | "lock" | "scan"
 
 VARIABLES
@@ -144,7 +144,7 @@ NameExists(f) == \E g \in dir : SameTile(f, g) /\ g.t \in {"full", "empty"}
 ToolWould(f) ==
     /\ ~ToolRefuses
     /\ Guard1 => NameExists(f)
-    /\ f.n < DivPow(ToolSize, f.l + 1 + ExpShift) + EdgeSlack
+    /\ f.n < DivPow(ToolSize, f.l + 1 - ExpLess) + EdgeSlack
 ToolDeletesFile(f) == f.t = "partial" /\ ToolWould(f) /\ (Guard4 => FullExists(f, dir))
 ToolDeletesDir(p)  == p.t = "pdir" /\ ToolWould(p) /\ MembersIn(p, dir) = {}
 
@@ -226,6 +226,6 @@ TypeOK ==
 
 \* what the abstract tool with all its guards removes is exactly Deletable
 ToolIsDeletable ==
-    (Guard1 /\ Guard4 /\ EdgeSlack = 0 /\ ExpShift = 0 /\ SizeFrom = "pub") =>
+    (Guard1 /\ Guard4 /\ EdgeSlack = 0 /\ ExpLess = 0 /\ SizeFrom = "pub") =>
         \A f \in dir : ToolDeletesFile(f) = Deletable(f, dir, pv, pub)
 =============================================================================
